@@ -424,6 +424,14 @@ Definition dec_obs_ok (src : bytes) (cls : N) (rs : list N) : bool :=
    it is tolerated; octets returned into too small a destination are not. *)
 Definition cap_obs_ok {A} (eq : A -> A -> bool) (x : outcome A) (cls : N) (v : A) : bool :=
   (cls =? 3) && negb (is_panic x) || out_is eq x cls v.
+(* the decoder asks for room for the filler CR before it drops it; one that checks afterwards returns
+   the text where the model says ErrShortDst - the same text Bytes returns, and it fits: not a mismatch *)
+Definition dcap_obs_ok (dstlen : nat) (src : bytes) (cls : N) (rs : list N) : bool :=
+  cap_obs_ok beq_runes (dec_transform dstlen src) cls rs
+  || match dec_transform dstlen src with
+     | Err ESize => (cls =? 0) && out_is beq_runes (decode src) 0 rs && Nat.leb (utf8_total rs) dstlen
+     | _ => false
+     end.
 
 (* One direct call Transform(dst, src, atEOF), observed as (cls, nDst, nSrc, dst[:nDst]) with
    cls 0 nil / 1 another error / 2 panic / 3 ErrShortDst / 4 ErrShortSrc, against the model.
@@ -501,24 +509,3 @@ Definition dec_feed_ok (chunks : list bytes) (cls : N) (out : bytes) : bool :=
   | Err _ => (cls =? 0) || (cls =? 1)
   | Panic => cls =? 2
   end.
-
-(* --- the code before the fix: commits (for the ..._before_fix witnesses) -- *)
-(* D13: inverse table built over 256 slots (128 unused slots hold rune 0), ESC slot not skipped *)
-Definition forward_lookup_legacy (r : N) : option N :=
-  fwd_build false 0 (reverse_lookup ++ repeat 0 128) r None.
-(* D14: else if bit == 0 && item == cr { dst[index] = 0x00; pack(cr) } *)
-Definition pack_septets_legacy (dst : bytes) (septets : list N) : outcome bytes :=
-  do st <- pack_all (mkp dst 0 0) septets;
-  if Nat.eqb (8 - p_bit st) 7
-  then do st' <- pack_one st cr; Ok (p_dst st')
-  else if Nat.eqb (p_bit st) 0 && (last septets 0 =? cr)
-  then match nth_error (p_dst st) (p_index st) with
-       | None => Panic
-       | Some _ => do st' <- pack_one (mkp (upd (p_index st) 0 (p_dst st)) (p_index st) (p_bit st)) cr; Ok (p_dst st')
-       end
-  else Ok (p_dst st).
-(* D15: n := len(decoded); n > 2 && (decoded[n-1] == cr || decoded[n-2] == cr) => nDst-- (on UTF-8 octets;
-   stated here for texts below U+0080, one octet per rune) *)
-Definition dec_finish_legacy (rs : list N) : list N :=
-  let n := length rs in
-  if Nat.ltb 2 n && ((nth (n - 1) rs 0 =? cr) || (nth (n - 2) rs 0 =? cr)) then removelast rs else rs.
